@@ -1,0 +1,30 @@
+//go:build verif
+
+package mp4
+
+// Property C02, per box type: representation invariants (boxOK@Type) under which EncodeSW writes exactly Size() bytes, and the
+// loop invariants of the encoders. The invariants are what the decoders and constructors establish; see DESIGN.md.
+
+//@ pred boxOK@FrmaBox(b *FrmaBox) = len(b.DataFormat) == 4
+//@ pred boxOK@FreeBox(b *FreeBox) = len(b.Name) == 4
+
+// plain containers: every child is a valid box
+//@ pred kidsOK(cs []Box) = forall i int :: 0 <= i && i < len(cs) ==> boxOK(cs[i])
+//@ pred boxOK@GenericContainerBox(b *GenericContainerBox) = kidsOK(b.Children) && len(b.name) == 4
+//@ pred boxOK@DinfBox(b *DinfBox) = kidsOK(b.Children)
+//@ pred boxOK@EdtsBox(b *EdtsBox) = kidsOK(b.Children)
+//@ pred boxOK@IlstBox(b *IlstBox) = kidsOK(b.Children)
+//@ pred boxOK@LudtBox(b *LudtBox) = kidsOK(b.Children)
+//@ pred boxOK@MdiaBox(b *MdiaBox) = kidsOK(b.Children)
+//@ pred boxOK@MfraBox(b *MfraBox) = kidsOK(b.Children)
+//@ pred boxOK@MinfBox(b *MinfBox) = kidsOK(b.Children)
+//@ pred boxOK@MoovBox(b *MoovBox) = kidsOK(b.Children)
+//@ pred boxOK@MvexBox(b *MvexBox) = kidsOK(b.Children)
+//@ pred boxOK@SchiBox(b *SchiBox) = kidsOK(b.Children)
+//@ pred boxOK@SinfBox(b *SinfBox) = kidsOK(b.Children)
+//@ pred boxOK@StblBox(b *StblBox) = kidsOK(b.Children)
+//@ pred boxOK@TrafBox(b *TrafBox) = kidsOK(b.Children)
+//@ pred boxOK@TrakBox(b *TrakBox) = kidsOK(b.Children)
+//@ pred boxOK@TrefBox(b *TrefBox) = kidsOK(b.Children)
+//@ pred boxOK@UdtaBox(b *UdtaBox) = kidsOK(b.Children)
+//@ pred boxOK@VttcBox(b *VttcBox) = kidsOK(b.Children)
